@@ -110,10 +110,19 @@ record("AssignedFeatureCounterIds", {"group_numeric_ids": "dict[str,int]", "orde
 CLASS_HOME["AssignedFeatureCounter"] = "src/long_read_counter.py"
 
 
+_AFC_DIR = None
+
+
 def _afc_native(argmap):
     import tempfile, os
     lrc = native.repo_import("src/long_read_counter.py")
-    d = tempfile.mkdtemp(prefix="afc", dir=os.path.join(os.path.dirname(os.path.dirname(__file__)), ".run"))
+    # one scratch directory per process, reused by every sample (the constructor only opens output files lazily)
+    global _AFC_DIR
+    if _AFC_DIR is None or not os.path.isdir(_AFC_DIR):
+        import atexit, shutil
+        _AFC_DIR = tempfile.mkdtemp(prefix="afc", dir=os.path.join(os.path.dirname(os.path.dirname(__file__)), ".run"))
+        atexit.register(shutil.rmtree, _AFC_DIR, True)
+    d = _AFC_DIR
     argmap["_dir"] = d
     argmap["output_prefix"] = os.path.join(d, "x")
     argmap["assignment_extractor"] = lrc.TranscriptAssignmentExtractor
